@@ -15,6 +15,7 @@
 package nutsdb
 
 import (
+	"bytes"
 	"errors"
 	"fmt"
 	"io"
@@ -987,8 +988,12 @@ func (db *DB) getPendingMergeEntries(entry *Entry, pendingMergeEntries []*Entry)
 		keyAndScore := strings.Split(string(entry.Key), SeparatorForZSetKey)
 		if len(keyAndScore) == 2 {
 			key := keyAndScore[0]
+			score, _ := strconv2.StrToFloat64(keyAndScore[1])
 			n := db.SortedSetIdx[string(entry.Meta.bucket)].GetByKey(key)
-			if n != nil {
+			// keep the record only if it is the member's current version: an
+			// older ZAdd of a member that was re-scored since must not be
+			// rewritten behind the newer one
+			if n != nil && float64(n.Score()) == score && bytes.Equal(n.Value, entry.Value) {
 				pendingMergeEntries = append(pendingMergeEntries, entry)
 			}
 		}
